@@ -292,7 +292,8 @@ class Gen:
             big = max(sizes)
             # parser level
             for mem in {-1, 0, max(0, big - 1), big, big + 1}:
-                pts = cuts_random(rng, cl, rng.choice((0, 1, 3, 8, cl // 7 + 1)))
+                # (the model driver re-measures the part for every consume call: many cuts only on small bodies)
+                pts = cuts_random(rng, cl, rng.choice((0, 1, 3, 8, cl // 7 + 1 if cl < 4000 else 40)))
                 self.add("mp %s %d 1 %s" % (hx(ct), mem, " ".join(hx(x) for x in chunk_at(body, pts))),
                          kind="mp", parts=parts, group=None)
             if cl < 300:
@@ -317,7 +318,7 @@ class Gen:
                         buf = rng.choice((1, 2, 7, 64, 1024, 65536, rng.randrange(1, 65537)))
                     else:
                         buf = rng.choice((512, 1024, 4096, 65536, rng.randrange(max(512, cl // 64), 65537)))
-                    flt = rng.choice((0, 0, 2))
+                    flt = rng.choice((0, 0, 2)) if cl < 4000 else 0
                     self.rq(flt, ct, cl, climit, mlimit, mem, disk, buf, b"", chs, kind="rq-wf", expect=exp,
                             group=(gid, ci), body=body)
             # raw filter sees every byte once
@@ -497,7 +498,7 @@ def main():
     else:
         load_corpus(g)
         if thorough:
-            g.multipart_cases(220, 40, big_size=262144)
+            g.multipart_cases(220, 24, big_size=262144)
             g.malformed_cases(2500)
             g.ct_cases(4000)
             g.form_cases(800)
